@@ -89,7 +89,7 @@ def pat_sem(p, env=None):
     if k == "concat":
         return rx.seq(*[pat_sem(x, env) for x in p.parts])
     if k == "ref":
-        return pat_sem(env[p.name], env)
+        return pat_sem(p.target if hasattr(p, "target") else env[p.name], env)
     raise ValueError(k)
 
 
